@@ -31,7 +31,11 @@ func (r *verifRuntime) LoadBuiltin(importPath string) *Vertex { return nil }
 func (r *verifRuntime) LoadInstance(inst *verifbuild.Instance) *Vertex { return nil }
 func (r *verifRuntime) StoreType(t verifreflect.Type, v *Vertex)       {}
 func (r *verifRuntime) LoadType(t verifreflect.Type) (*Vertex, bool)   { return nil, false }
-func (r *verifRuntime) ConfigureOpCtx(ctx *OpContext)                  { ctx.Version = verifinternal.EvalV3 }
+// production defaults (cuedebug.Config): structure sharing is on
+func (r *verifRuntime) ConfigureOpCtx(ctx *OpContext) {
+	ctx.Version = verifinternal.EvalV3
+	ctx.Sharing = verifParam("SHARING", 1) == 1
+}
 
 func verifNewCtx() *OpContext {
 	return New(nil, &Config{Runtime: &verifRuntime{}})
